@@ -5,7 +5,7 @@ from .. import mengine, kengine
 
 ID = "C13"
 ENGINE = "M"
-TECHNIQUE = "symbolic execution of the MIR of humphrey_json's Parser over n symbolic Unicode scalar values (explicit control, summaries at loop heads) -> z3 query `accepted <=> RFC 8259 recogniser`; counterexamples replayed natively against Value::parse and judged by an independent reference parser"
+TECHNIQUE = "symbolic execution of the MIR of humphrey_json's parser and serialiser (own executor) -> z3: `accepted <=> RFC 8259 recogniser` for every string of n symbolic Unicode scalar values; value templates (concrete structure, symbolic holes): `value tree == what the text denotes`; serialiser on symbolic strings: `output is a valid literal denoting the same characters`; counterexamples replayed natively and judged by an independent reference parser"
 
 _G = {}
 WS = (0x20, 0x09, 0x0A, 0x0D)
@@ -299,6 +299,12 @@ def py_accepts(text, depth=None):
     return True
 
 
+def lone_surrogate_escape(text):
+    """Some \\uXXXX escape denotes a surrogate that is not part of a high+low pair (acceptance is left open by the property)."""
+    t = re.sub(r"\\u[dD][89abAB][0-9a-fA-F]{2}\\u[dD][c-fC-F][0-9a-fA-F]{2}", "", text)
+    return has_surrogate_escape(t)
+
+
 def has_surrogate_escape(text):
     return any(0xD800 <= int(m.group(1), 16) <= 0xDFFF for m in re.finditer(r"\\u([0-9a-fA-F]{4})", text))
 
@@ -368,6 +374,8 @@ def run(tier):
             key = classify(t) if not want else None
             if key and (ID, key) in known:
                 continue
+            if lone_surrogate_escape(t):
+                continue          # the property leaves unpaired surrogate escapes open
             if any(g == "PANIC" or (g == "OK") != want for g in (got_d, got_r)):
                 os.makedirs(REPLAY_DIR, exist_ok=True)
                 path = os.path.join(REPLAY_DIR, "C13-json.json")
@@ -443,12 +451,63 @@ def run(tier):
         rc = rc or 2
     for r in undis:
         log("UNDISCHARGED: n=%d class=%s depth=%s — %s" % (r["n"], r["cls"], r["depth"], r.get("why", r["verdict"])))
+    # ---- value clause: templates (concrete structure, symbolic holes) — the value tree equals what the text denotes
+    from . import c13_val
+    try:
+        vp = c13_val.run_part(tier, mir)
+    except Exception as e:
+        log("UNDISCHARGED: value templates — %s" % str(e)[:500])
+        vp = {"results": [], "violations": [], "known_hits": [], "machinery": [], "undischarged": [{"template": "all", "why": str(e)[:300]}], "validation": {}}
+    for v in vp["known_hits"]:
+        log("KNOWN-FINDING: property=%s key=%s %s [Value::parse(%r) -> %s, the text denotes %s]" % (ID, v["key"], known[(ID, v["key"])], v["text"], v["native_dev"][:80], v["expected"][:80]))
+    for i, v in enumerate(vp["violations"][:3]):
+        path = os.path.join(REPLAY_DIR, "C13-value-%d.json" % i)
+        with open(path, "w") as f:
+            json.dump(dict(v, property=ID, engine="M", how="./check C13 --replay " + path), f, indent=1)
+        log("VIOLATION property=%s replay=%s" % (ID, path))
+        log("   Value::parse(%r) -> %s (release %s); the text denotes %s (template %s: %s)" % (v["text"], v["native_dev"][:120], v["native_release"][:120], v["expected"][:120], v.get("template"), v["failed"][:120]))
+        rc = 1
+    for m in vp["machinery"][:3]:
+        log("MACHINERY-ERROR: " + m)
+        rc = rc or 2
+    for r in vp["undischarged"][:5]:
+        log("UNDISCHARGED: value template %s — %s" % (r.get("template"), r.get("why")))
+    okv = [r for r in vp["results"] if r["verdict"] == "unsat"]
+    log("   value templates: %d/%d discharged (value tree == what the text denotes; reject templates), translator validation on %s documents" % (len(okv), len(vp["results"]), vp["validation"].get("documents")))
+    violations = violations + [dict(v, n=len(v["text"]), check=v["failed"]) for v in vp["violations"]]
+    # ---- serialiser clause: string values of n symbolic characters -> valid RFC 8259 literal denoting the same characters
+    from . import c13_ser
+    try:
+        sp = c13_ser.run_part(tier, mir)
+    except Exception as e:
+        log("UNDISCHARGED: serialiser — %s" % str(e)[:500])
+        sp = {"results": [], "violations": [], "machinery": [], "undischarged": [{"job": "all", "why": str(e)[:300]}], "validation": {}}
+    for v in sp["violations"][:1]:
+        path = os.path.join(REPLAY_DIR, "C13-serialize.json")
+        with open(path, "w") as f:
+            json.dump(dict(v, property=ID, engine="M", how="./check C13 --replay " + path), f, indent=1)
+        log("VIOLATION property=%s replay=%s" % (ID, path))
+        log("   serialize(String(%r)) = %r (release %r): not a strict RFC 8259 literal that parses back to the value (%s)" % ("".join(chr(c) for c in v["chars"]), v["native_dev"], v["native_release"], v["failed"][:100]))
+        rc = 1
+        violations = violations + [dict(v, n=len(v["chars"]), check=v["failed"], text=v["native_dev"])]
+    for m in sp["machinery"][:3]:
+        log("MACHINERY-ERROR: " + m)
+        rc = rc or 2
+    for r in sp["undischarged"][:5]:
+        log("UNDISCHARGED: serialiser %s — %s" % (r.get("job"), r.get("why")))
+    oks = [r for r in sp["results"] if r["verdict"] == "unsat"]
+    log("   serialiser: %d/%d obligations discharged (string values of 0..%d symbolic characters), translator validation on %s values" % (len(oks), len(sp["results"]), max([r["n"] for r in sp["results"]] + [0]), sp["validation"].get("values")))
     ok = [r for r in results if r["verdict"] == "unsat"]
     cov = {
-        "evaluations": len(results), "distinct_nontrivial": len([r for r in results if r["verdict"] in ("unsat", "sat") and r["n"] >= 1]),
+        "serialiser": {"obligations": len(sp["results"]), "discharged": len(oks), "validation": sp["validation"], "undischarged": sp["undischarged"],
+                       "function_encoded": "humphrey-json/src/serialize.rs: Value::serialize, Value::serialize_pretty -> string_to_string (write! through the fmt::Arguments model)",
+                       "bounds": "Value::String of 0..%d symbolic Unicode scalar values" % max([r["n"] for r in sp["results"]] + [0]),
+                       "outside": "numbers (f64 Display), arrays/objects and indentation layout, object keys (same string_to_string)",
+                       "std_models_trusted": sorted(set(m for r in sp["results"] for m in r.get("models", [])))},
+        "evaluations": len(results) + len(vp["results"]) + len(sp["results"]), "distinct_nontrivial": len([r for r in results if r["verdict"] in ("unsat", "sat") and r["n"] >= 1]) + len([r for r in vp["results"] if r["verdict"] in ("unsat", "sat")]),
         "rule": "one evaluation = one obligation (input length n, class of the first character, depth limit): z3 decides `no panic`, `accepted => RFC 8259 text`, `RFC 8259 text => accepted` for ALL strings of n Unicode scalar values in that class; non-trivial = n >= 1 with a verdict",
         "samples": [{k: r.get(k) for k in ("n", "cls", "depth", "verdict", "paths", "blocks", "symex_s", "solver_s")} for r in (results[-3:] + results[:1])],
-        "obligations": len(results), "discharged": len(ok),
+        "obligations": len(results) + len(vp["results"]) + len(sp["results"]), "discharged": len(ok) + len(okv) + len(oks),
         "states": max(1, sum(r.get("blocks", 0) for r in results)), "transitions": max(1, sum(r.get("feasibility_queries", 0) + 4 for r in results)),
         "traces_validated_against_impl": len(docs) + len(violations) + len(known_hits) + len(machinery),
         "undischarged": [{"n": r["n"], "cls": r["cls"], "depth": r["depth"], "why": r.get("why", r["verdict"])} for r in undis],
@@ -457,9 +516,13 @@ def run(tier):
         "std_models_trusted": sorted(set(m for r in results for m in r.get("models", []))),
         "specification": "RFC 8259 recogniser as z3 formulas over the same characters (span dynamic programming: ws, literals, number automaton, string automaton with escapes, arrays, objects, nesting depth) in vlib/props/c13.py; Python's json module (strict, no NaN/Infinity) judges native replays",
         "bounds": {"input_length": "0..%d characters (ALL Unicode scalar values)" % NMAX, "depth_limit": "parse_max_depth with limits 0 and 1 on inputs of 2..4 characters; Value::parse's limit 256 is never reached within the bound"},
-        "outside_bounds": ["documents longer than %d characters (e.g. objects with two members, \\u escapes need >= 8)" % NMAX, "numeric VALUES and f64 formatting (floating point)", "the value tree (only acceptance is compared), member order",
-                           "the serialiser and the parse(serialize(v)) round trip", "nesting depth 256, stack use"],
+        "outside_bounds": ["documents longer than %d characters (e.g. objects with two members, \\u escapes need >= 8)" % NMAX, "numeric VALUES and f64 formatting (floating point: the number token handed to f64::from_str is compared, the conversion is std's)", "value trees other than the listed templates",
+                           "the serialiser beyond string values (numbers, container layout, indentation)", "nesting depth 256, stack use"],
         "translator_validation": {"documents": len(docs), "disagreements": 0},
+        "value_templates": {"templates": len(vp["results"]), "discharged": len(okv), "validation": vp["validation"], "undischarged": vp["undischarged"], "known_findings_seen": vp["known_hits"],
+                            "names": [r["template"] for r in vp["results"]],
+                            "obligation": "every path returns Ok and the value tree equals the one the text denotes (strings character by character incl. escapes and surrogate pairs, number tokens as written, members in order); reject templates never return Ok",
+                            "std_models_trusted": sorted(set(m for r in vp["results"] for m in r.get("models", [])))},
         "solver_time_s": round(sum(r.get("solver_s", 0) for r in results), 2), "symex_time_s": round(sum(r.get("symex_s", 0) for r in results), 2),
         "engines": {"mirsym": "own MIR symbolic executor", "z3": "5.1.0"}, "repo_head": git_head(REPO), "repo_dirty": repo_dirty(), "exhaustive": False,
         "explanation": "bounded: every string of the listed lengths over all of Unicode",
@@ -472,6 +535,18 @@ def run(tier):
 def replay(d, path):
     mengine.setup(ID)
     kengine.write_lists({})
+    if d.get("kind") == "serialize":
+        from . import c13_ser
+        if c13_ser.replay(d):
+            log("VIOLATION property=%s replay=%s" % (ID, path))
+            return 1
+        return 0
+    if d.get("kind") == "value":
+        from . import c13_val
+        if c13_val.replay(d):
+            log("VIOLATION property=%s replay=%s" % (ID, path))
+            return 1
+        return 0
     exe = mengine.build_mtool("debug")
     got = native(exe, d["text"], d.get("depth"))
     want = py_accepts(d["text"], d.get("depth"))
